@@ -245,7 +245,7 @@ def prior_body_factory(ctx, ndraw):
 def conditional_cases(draw):
     a = gens.rounded(draw(gens.logfloat(0.5, 50.0)))
     return {"a": a, "b": gens.rounded(a * draw(gens.logfloat(3.0, 300.0))), "slope": gens.rounded(draw(gens.fl(0.5, 6.0))),
-            "which": draw(st.sampled_from(["e|P", "s|P", "e|P", "K|P"])), "seed": draw(st.integers(0, 2**32 - 1)),
+            "which": draw(st.sampled_from(["e|P", "s|P", "e|P", "K|P", "P~Truncated", "s~Mixture"])), "seed": draw(st.integers(0, 2**32 - 1)),
             "generate_linear": draw(st.booleans())}
 
 
@@ -263,15 +263,22 @@ def conditional_body_factory(ctx):
         which = c["which"]
         with ctx.sut("building a prior whose parameters depend on the period"):
             with pm.Model() as model:
-                P = xu.with_unit(pm.Uniform("P", a, b), u.day)
+                if which == "P~Truncated":
+                    # a prior that pymc represents by a symbolic (not a plain) random variable
+                    P = xu.with_unit(pm.Truncated("P", pm.LogNormal.dist(math.log(a) + 1.0, k / 3.0), lower=a, upper=b), u.day)
+                else:
+                    P = xu.with_unit(pm.Uniform("P", a, b), u.day)
                 frac = (P - a) / (b - a)
                 pars = {"P": P}
+                if which == "s~Mixture":
+                    pars["s"] = xu.with_unit(pm.Mixture("s", w=[0.3, 0.7], comp_dists=[pm.LogNormal.dist(-3.0, 0.3),
+                                                                                         pm.LogNormal.dist(0.5, 0.4)]), u.km / u.s)
                 if which == "e|P":
                     # tidal circularisation: short periods prefer small eccentricities
                     pars["e"] = xu.with_unit(pm.Beta("e", 0.867, 3.03 + k * (1 - frac)), u.one)
                 elif which == "s|P":
                     pars["s"] = xu.with_unit(pm.Lognormal("s", -2.0 + k * frac, 0.5), u.km / u.s)
-                else:
+                elif which == "K|P":
                     pars["K"] = xu.with_unit(pm.Normal("K", 0.0, 1.0 + k * frac), u.km / u.s)
                 kw = dict(sigma_v=10 * u.km / u.s, pars=pars, model=model)
                 if which != "K|P":
@@ -287,6 +294,16 @@ def conditional_body_factory(ctx):
         if Pd.min() < a or Pd.max() > b:
             raise Violation("period draws outside the declared support", min=Pd.min(), max=Pd.max())
         dens = np.zeros(len(t))
+        pit = None
+        if which == "P~Truncated":
+            mu_, sg_ = math.log(a) + 1.0, k / 3.0
+            lo_, hi_ = ss.norm.cdf((math.log(a) - mu_) / sg_), ss.norm.cdf((math.log(b) - mu_) / sg_)
+            dens += ss.lognorm.logpdf(Pd, sg_, scale=math.exp(mu_)) - math.log(hi_ - lo_)
+            pit = (ss.norm.cdf((np.log(Pd) - mu_) / sg_) - lo_) / (hi_ - lo_)
+        if which == "s~Mixture":
+            sv = t["s"].to_value(u.km / u.s)
+            dens += np.log(0.3 * ss.lognorm.pdf(sv, 0.3, scale=math.exp(-3.0)) + 0.7 * ss.lognorm.pdf(sv, 0.4, scale=math.exp(0.5)))
+            pit = 0.3 * ss.lognorm.cdf(sv, 0.3, scale=math.exp(-3.0)) + 0.7 * ss.lognorm.cdf(sv, 0.4, scale=math.exp(0.5))
         if which == "e|P":
             be = 3.03 + k * (1 - fr)
             dens += ss.beta.logpdf(e, 0.867, be)
